@@ -86,8 +86,15 @@ func HarnessC19Recover() {
 		opts = []HandlerOption{others[0], others[1], WithRecover(handle)}
 	}
 	opts = stackHandlerOptions(opts...)
+	// optionally a first, non-panicking call goes through the same handler
+	// before the call under test (the interceptor must not remember it)
+	warmup := nondetBool("warmup")
+	callNo := 0
+	if !warmup {
+		callNo = 1
+	}
 	maybePanic := func(at int) {
-		if point == at {
+		if callNo == 1 && point == at {
 			panic(c19PanicValue(pv))
 		}
 	}
@@ -133,6 +140,36 @@ func HarnessC19Recover() {
 	in := []byte{1}
 	var callErr error
 	got := 0
+	if warmup {
+		// same kind of call, no panic (callNo == 0)
+		switch kind {
+		case 0:
+			_, _ = client.CallUnary(context.Background(), NewRequest(&in))
+		case 1:
+			cs := client.CallClientStream(context.Background())
+			_ = cs.Send(&in)
+			_, _ = cs.CloseAndReceive()
+		case 2:
+			if ss, err := client.CallServerStream(context.Background(), NewRequest(&in)); err == nil {
+				for ss.Receive() {
+				}
+				_ = ss.Close()
+			}
+		default:
+			bs := client.CallBidiStream(context.Background())
+			_ = bs.Send(&in)
+			_ = bs.CloseRequest()
+			for {
+				if _, err := bs.Receive(); err != nil {
+					break
+				}
+			}
+			_ = bs.CloseResponse()
+		}
+		check(calls == 0 && !tr.panicked, "a call that does not panic never reaches the recovery function")
+		callNo = 1
+		c16Log = nil
+	}
 	switch kind {
 	case 0:
 		_, callErr = client.CallUnary(context.Background(), NewRequest(&in))
